@@ -14,23 +14,23 @@ CLAIMED = {
          "Structural equality: same primitive type, object field order irrelevant, short and long strings equal, floats bitwise except that signalling and quiet float32 NaN are one value. Values handed over or read back as Go values are compared modulo the documented lossy Go mapping (Value.GoValue / ValueOf); a Go nil stands for both the null group and the variant null. Reading through a different shredding schema than the file's is not exercised; the cursor reader and the column writer are exercised on non-repeated placements only.",
          "DESIGN.md §4 C19, §11"),
  "C18": ("exploration", "runtime monitoring + fault injection: round-trip oracle, raw-byte marker scan for plaintext leaks, and error-or-clean-rows oracle over tampered module envelopes located by an independent length-prefix walk",
-         "Held on every explored case: both footer modes x footer-key-only / per-column keys x v1/v2 x codecs x bloom filters x 1..n row groups x fresh or Reset-reused writers: (a) rows read with the right keys equal the rows written, a reader lacking a column key gets an error; (b) none of the unique 16-byte markers (nor the PLAIN int64 encodings) of encrypted columns or their statistics occurs in the raw file; (c) byte flips in nonce / ciphertext / tag / length prefix of PRNG modules, truncations, swaps of equal-length modules, transplants of the same module position from a second file (separate config, one shared *EncryptionConfig, same writer after Reset) and a wrong footer key all make the read fail (never different rows). Tamper points are sampled: exploration.",
+         "Held on every explored case: both footer modes x footer-key-only / per-column keys x v1/v2 x codecs x bloom filters x 1..n row groups (every eighth file with > 256 pages per chunk or > 256 row groups) x fresh or Reset-reused writers: (a) rows read with the right keys equal the rows written, a reader lacking a column key gets an error, and seek histories (incl. short forward seeks inside the read buffer) on the untampered file return the right rows; (b) none of the unique 16-byte markers (nor the PLAIN int64 encodings) of encrypted columns or their statistics occurs in the raw file; (c) byte flips in nonce / ciphertext / tag / length prefix of PRNG modules, truncations, swaps of equal-length modules (incl. modules 256 positions apart), transplants of the same module position from a second file (separate config, one shared *EncryptionConfig, same writer after Reset) and a wrong footer key all make the read fail (never different rows). Tamper points are sampled: exploration.",
          "Module boundaries come from a 4-byte length-prefix walk from offset 4 to the footer. Column names in a plaintext footer may be visible.",
          "DESIGN.md §4 C18"),
- "C12": ("exploration", "runtime monitoring: reflection-based projection oracle over run-time derived target struct types (delete/permute/add edits at any depth), six conversion entry points",
-         "Held on every explored (source type, edited target type, rows, entry point) except the recorded known findings F34/F35: rows read through NewReader(file, schema), ConvertRowGroup (rows and column chunks), ConvertRowReader, CopyRows and MergeRowGroups(schema) equal the projection of the source rows - common columns and nesting identical, added columns nil/zero, count and order unchanged - for <= 4 edits incl. inside lists, nested groups and map values. Sampling: exploration.",
-         "Field matching by column name. Common leaves keep their Go type. Incompatibility probing is limited to repeated->scalar targets (recorded as known finding F34: accepted, elements dropped).",
+ "C12": ("exploration", "runtime monitoring: reflection-based projection oracle over run-time derived target struct types (delete/permute/add edits at any depth), eight conversion entry points",
+         "Held on every explored (source type, edited target type, rows, entry point) except the recorded known findings F34/F35/F37/F38: rows read through NewReader(file, schema), ConvertRowGroup (rows and column chunks), ConvertRowReader, CopyRows after an explicit conversion and CopyRows left to insert the conversion itself, MergeRowGroups(schema) plain and sorted equal the projection of the source rows - common columns and nesting identical, added columns nil/zero, count and order unchanged - for <= 4 edits incl. inside lists, nested groups and map values. Sampling: exploration.",
+         "Field matching by column name. Common leaves keep their Go type. Incompatibility probing is limited to repeated->scalar targets (recorded as known finding F34: accepted, elements dropped). Known findings on missing-column materialisation are matched on where the first difference is (group nullness / list length) so that differences at the added column or at original values are always reported.",
          "DESIGN.md §4 C12"),
  "C11": ("exploration", "runtime monitoring: A/B oracle (rows of dst.WriteRowGroup(src) vs src.Rows() read beforehand) with independent decoding of the produced file, destination-setting checks, and hook counters proving which fast path ran",
-         "Held on every explored (source, source config, destination config): sources = file row group, buffer, row-range view, MultiRowGroup, merged (overlapping and not), dedup wrapper, converted, and a foreign RowGroup whose Rows() reverses the rows; destinations = same config or one setting changed (codec, page version, default encoding, page size, MaxRowsPerRowGroup, bloom filters). The file's rows (library reader and specreader) equal src.Rows(), the file is well-formed, and it honours the destination codec/version/encoding/bloom/row-group size; evidence counts verbatim-copy, column re-encode and row-path executions from the library's own counters. Sampling: exploration.",
+         "Held on every explored (source, source config, destination config): sources = file row group, buffer, row-range view, MultiRowGroup, merged (overlapping and not), a sorted merge whose non-overlapping segments include a wrapper over file-backed chunks (foreign every-other-row RowGroup, or a duplicate-dropping merge), dedup wrapper, converted, and a foreign RowGroup whose Rows() reverses the rows; destinations = same config or one setting changed (codec, page version, default encoding, page size, MaxRowsPerRowGroup, bloom filters). The file's rows (library reader and specreader) equal src.Rows(), the file is well-formed, and it honours the destination codec/version/encoding/bloom/row-group size; evidence counts verbatim-copy, column re-encode and row-path executions from the library's own counters. Sampling: exploration.",
          "Path counters and the row-range constructor are reached through verif-tagged accessors (verif_hooks_on.go). Columns whose struct tag pins a codec/encoding are exempt from the corresponding destination-default check.",
          "DESIGN.md §4 C11"),
  "C14": ("fault_enumeration", "runtime fault injection at the I/O boundary: failing sinks at enumerated byte offsets, every strict prefix, failing io.ReaderAt at enumerated call indexes, with error-must-surface / rows-equal oracles",
-         "For every enumerated fault point: (a) a sink failing at byte offset k (hard error, short write with error, one transient failure) makes some Write/Flush/Close return an error without panicking, over 8 writer scenarios (default, unbuffered, file- and chunk-backed page buffers, deferred bloom filters, SortingWriter, concurrent row groups, WriteRowGroup copy path); all offsets are enumerated for files <= 4 KiB, call boundaries +-1 plus PRNG offsets otherwise; (b) every strict prefix (all lengths <= 4 KiB, structural boundaries +-1 otherwise) is rejected by OpenFile or by the full read; (c) a ReadAt fault (error / short+error / early EOF) at each call index of open+full read yields an error or exactly the clean rows.",
-         "Faults respect the io.Writer/io.ReaderAt contracts. Values never contain PAR1/PARE. Syscall-level (strace) injection on real files (ReadFrom/copy_file_range paths) is not exercised.",
+         "For every enumerated fault point: (a) a sink failing at byte offset k (hard error, short write with error, one transient failure) makes some Write/Flush/Close return an error without panicking, over 9 writer scenarios (default, unbuffered, file- and chunk-backed page buffers, deferred bloom filters, SortingWriter, concurrent row groups, WriteRowGroup copy path, single Write calls crossing automatic row-group boundaries on an unbuffered sink); all offsets are enumerated for files <= 4 KiB, call boundaries +-1 plus PRNG offsets otherwise; (b) every strict prefix (all lengths <= 4 KiB, structural boundaries +-1 otherwise) is rejected by OpenFile or by the full read; (c) a ReadAt fault (error / short+error / early EOF once, or short+EOF on every call from index i on) at each call index of open + full read + bloom filter probes yields an error, or exactly the clean rows and correct filter answers; the reading side runs under five profiles (parquet.Read[T]; OpenFile defaults; OptimisticRead; OptimisticRead+PrefetchBloomFilters+64-byte buffer; lazy page index and filters + async) with a reader loop that ends on errors.Is(err, io.EOF) as parquet.CopyRows does.",
+         "Faults respect the io.Writer/io.ReaderAt contracts; bytes a short read did not deliver are overwritten in the caller's buffer. Values never contain PAR1/PARE. Syscall-level (strace) injection on real files (ReadFrom/copy_file_range paths) is not exercised.",
          "DESIGN.md §4 C14"),
  "C16": ("exploration", "runtime monitoring: deep-snapshot comparison of caller-held values across PRNG later-activity histories, with a poison-on-release hook in the slice pools (build tag verif) that makes dangling aliases deterministic; thorough tier also under the race detector",
-         "Held on every explored history: Go values filled by GenericReader.Read and retained by shallow copy while the batch slice is reused, cloned Rows, and un-cloned Rows (until the next call on their reader) are bit-identical to their snapshot after later reads, seeks, Reset, Close, other readers of the same and other files, writer churn through the shared pools and GC; rows and []Row passed to Write/WriteRows/SortingWriter/sorted buffers/DedupeRowWriter are unchanged afterwards. Because released pool memory is overwritten with 0xDB, an alias that survives a release shows up on the first comparison instead of depending on pool reuse. Sampling of histories: exploration.",
+         "Held on every explored history: Go values filled by GenericReader.Read and retained by shallow copy while the batch slice is reused, cloned Rows, and un-cloned Rows (until the next call on their reader) are bit-identical to their snapshot after later reads, seeks, Reset, Close, other readers of the same and other files, writer churn through the shared pools and GC; rows and []Row passed to Write/WriteRows/SortingWriter/sorted buffers/DedupeRowWriter/FilterRowWriter/TransformRowWriter/MultiRowWriter/RowBuffer.WriteRows are unchanged afterwards; typed values are also read from in-memory buffer row groups that are reset and refilled later; un-cloned rows are also read through FilterRowReader, TransformRowReader, ScanRowReader, DedupeRowReader and MergeRowReaders and compared with the file's rows at return time. Because released pool memory is overwritten with 0xDB, an alias that survives a release shows up on the first comparison instead of depending on pool reuse. Sampling of histories: exploration.",
          "Hook: internal/memory.putSliceToPool poisons released slices when built with -tags verif (VERIF_POISON=0 disables). Memory not managed by the slice pools is outside the hook's reach.",
          "DESIGN.md §4 C16"),
  "C09": ("exploration", "runtime monitoring: (source, sequence)-tagged rows checked by an O(n) scan for sortedness (independent comparator), multiset completeness and per-source order over PRNG merge plans",
@@ -38,11 +38,11 @@ CLAIMED = {
          "Inputs are sorted by the independent comparator (spec orders; no NaN keys). Ties across inputs are unconstrained.",
          "DESIGN.md §4 C09"),
  "C10": ("exploration", "runtime monitoring: id-tagged rows checked for permutation, row integrity and order (independent comparator AND Schema.Comparator) over PRNG sort histories on three buffer kinds and the SortingWriter, assembly and purego builds",
-         "Held on every explored history: GenericBuffer, Buffer, RowBuffer (write/sort/read/write more/sort again/Reset/reuse) and SortingWriter (run sizes 1,2,7,100, optional dedup): output is a permutation of the input with every row intact across its 10 columns, ordered per the declared direction and null placement according to an independent comparator and to Schema.Comparator, file sorting metadata equals the configuration, dedup keeps one row per key. Sampling: exploration.",
+         "Held on every explored history: GenericBuffer, Buffer, RowBuffer (write/sort/read/write more/sort again/Reset/reuse) and SortingWriter (run sizes 1,2,7,100, optional dedup, memory / chunked / file-backed SortingBuffers): output is a permutation of the input with every row intact across its 10 columns, ordered per the declared direction and null placement according to an independent comparator and to Schema.Comparator, file sorting metadata equals the configuration, dedup keeps one row per key. Sampling: exploration.",
          "No NaN sort keys. Ties unconstrained.",
          "DESIGN.md §4 C10"),
- "C08": ("exploration", "runtime monitoring: online sequential reference model (row array + position counter) checked after every operation of PRNG seek/read histories on 11 reader kinds",
-         "Held on every explored history: after each SeekToRow/Read step on Reader, GenericReader, RowGroup.Rows, ColumnChunk.Pages, file-level Column.Pages, flat and nested MultiRowGroup rows and pages, buffers, row-range views and async rows, the rows returned equal rows[pos:pos+n] of a fresh sequential pass (values and levels), with no early/late EOF; files cover v1/v2, dictionary, nested/repeated columns, 1..n row groups, with/without page index, small read buffers; histories are biased to page boundaries, the last returned page, repeated seeks and the end. Sampling of an unbounded history space: exploration.",
+ "C08": ("exploration", "runtime monitoring: online sequential reference model (row array + position counter) checked after every operation of PRNG seek/read histories on 13 reader kinds",
+         "Held on every explored history: after each SeekToRow/Read step on Reader, GenericReader, RowGroup.Rows, ColumnChunk.Pages, file-level Column.Pages, flat and nested MultiRowGroup rows and pages, buffers, row-range views, async-mode rows and the explicit AsyncRowGroup / AsyncPages / AsyncColumnChunk wrappers, the rows returned equal rows[pos:pos+n] of a fresh sequential pass (values and levels), with no early/late EOF; files cover v1/v2, dictionary, nested/repeated columns, 1..n row groups, with/without page index, small read buffers; histories are biased to page boundaries, the last returned page, repeated seeks and the end. Sampling of an unbounded history space: exploration.",
          "Ground truth = one sequential pass of a fresh reader of the same object. Seeks beyond NumRows are not issued. The thorough tier additionally runs under the race detector.",
          "DESIGN.md §4 C08"),
  "C06": ("exploration", "runtime monitoring: ground-truth oracle from generated page layouts over an exhaustively enumerated small space plus PRNG and writer-produced column indexes",
@@ -50,7 +50,7 @@ CLAIMED = {
          "Order claims fed to the search are computed truthfully from the layout (null pages ignored), as the statement is about indexes the writer can produce; C05 checks that the writer's claims are true.",
          "DESIGN.md §4 C06"),
  "C07": ("exploration", "runtime monitoring: membership oracle over independently decoded chunk values, probing the library's BloomFilter.Check and a spec-level SBBF check (hand-written xxhash64) of the raw bitset",
-         "Held on every explored file: for each row group and each of 16 columns covering all 8 physical types (optional, repeated, dictionary), every distinct non-null value decoded from the chunk is reported present by FileBloomFilter.Check and by an independent split-block check of the stored bitset, across 8 production modes (incremental small pages, pre-sized from buffers, dictionary, verbatim copy, re-encode, merged pack path, sources without filters, pending rows before a row group), deferred and gzip-compressed filters, row-group splits. Sampling: exploration.",
+         "Held on every explored file: for each row group and each of 16 columns covering all 8 physical types (optional, repeated, dictionary), every distinct non-null value decoded from the chunk is reported present by FileBloomFilter.Check and by an independent split-block check of the stored bitset, across 8 production modes (incremental small pages, pre-sized from buffers, dictionary incl. fallback to PLAIN after DictionaryMaxBytes with several pages per chunk, verbatim copy, re-encode, merged pack path, sources without filters, pending rows before a row group), deferred and gzip-compressed filters, row-group splits; files opened with default, prefetched (PrefetchBloomFilters+OptimisticRead) and lazily loaded (SkipBloomFilters) filters. Sampling: exploration.",
          "Ground truth per chunk from specreader's decode (tied to the input by C02). Spec-level check skipped for BOOLEAN and compressed bitsets.",
          "DESIGN.md §4 C07"),
  "C13": ("fault_enumeration", "runtime fault injection: bit flips / bursts inside page bodies located by an independent page walk, 10 access paths per fault, error-or-nothing oracle with clean-prefix comparison",
@@ -58,7 +58,7 @@ CLAIMED = {
          "Page boundaries come from specreader's walk of the clean file. CRC-32 detects all single-bit errors and bursts <= 32 bits. Faults outside page bodies (headers, footer) are outside the statement.",
          "DESIGN.md §4 C13"),
  "C05": ("exploration", "runtime monitoring: independent recomputation (specreader) of per-page/chunk min/max in the spec's sort orders, null counts and level histograms from the decoded bytes, compared with page-header, chunk and column-index statistics; three build/CPU variants",
-         "Held on every explored file (except the recorded known finding F29): recorded min/max are true bounds of the non-null non-NaN values after truncation, null counts / null_pages / level histograms are exact, ASCENDING/DESCENDING claims hold over the recorded bounds, sorting metadata is only what was declared; statistics copied by the verbatim-copy path included; run on assembly, purego and AVX-disabled variants because min/max/order kernels differ. True bounds imply a pruning reader never skips a matching page. Sampling: exploration.",
+         "Held on every explored file (except the recorded known finding F29): recorded min/max are true bounds of the non-null non-NaN values after truncation, null counts / null_pages / level histograms are exact, ASCENDING/DESCENDING claims hold over the recorded bounds, sorting metadata is only what was declared; statistics copied by the verbatim-copy path included; run on assembly, purego and AVX-disabled variants because min/max/order kernels differ, and the bytes of every file are joined across the three variants. True bounds imply a pruning reader never skips a matching page. Sampling: exploration.",
          "NaN bounds count as absent; INT96 order undefined (ignored). Trusted: specreader decode and Leaf.Compare (spec sort orders).",
          "DESIGN.md §4 C05"),
  "C02": ("exploration", "runtime monitoring: independent format decoder (specreader, written from the Parquet specification) validating every structural invariant of the produced bytes and comparing decoded (value,r,d) streams with a Dremel reference model",
@@ -66,11 +66,11 @@ CLAIMED = {
          "Trusted: specreader (validated on the third-party parquet-testing files in /repo/testdata: identical streams to the library on all of them), klauspost/andybalholm decompressors called directly. Maps hold <=1 entry.",
          "DESIGN.md §4 C02"),
  "C04": ("exploration", "runtime monitoring: round-trip + independent spec decoder oracle over PRNG value sequences with dirty reused dst buffers; offline cross-build digest join (std / purego / AVX-disabled)",
-         "Held on every explored (encoding, kind, sequence, dst history) case: library decode == input, independent decoder (written from the format spec) == input, and sha256 of encoded and decoded bytes identical across the assembly, purego and AVX-disabled variants. Unbounded input space sampled at block/miniblock/8-group boundaries: exploration.",
+         "Held on every explored (encoding, kind, sequence, dst history) case: library decode == input, independent decoder (written from the format spec) == input, and sha256 of encoded and decoded bytes identical across the assembly, purego and AVX-disabled variants. Byte-array inputs are given, half of the time, as a window into a larger buffer (offsets not starting at zero, bytes after the last offset: the shape of a sliced page). Unbounded input space sampled at block/miniblock/8-group boundaries: exploration.",
          "Trusted: specreader's decoders (validated against the parquet-testing files). RLE run values wider than the bit width are masked and counted (leniency). Memory safety of the assembly kernels is observed only through their output (dirty dst buffers of several capacities, three implementations compared): an over-read that never changes output is not observable; no guard-page allocator was built.",
          "DESIGN.md §4 C04"),
  "C17": ("exploration", "runtime monitoring: sha256 equality of files written from equal (rows, options) under different process/instance histories, offline digest join across std/purego/AVX-disabled builds",
-         "Held on every explored case: fresh writer twice, after unrelated writes, writer reused through Reset after completed/abandoned/failed files of other content, other goroutine, reused GenericBuffer/RowBuffer/SortingWriter all produce identical bytes; fresh digests equal across three build/CPU variants. Histories and inputs are sampled: exploration.",
+         "Held on every explored case: fresh writer twice, after unrelated writes, writer reused through Reset after completed/abandoned/failed files of other content, other goroutine, reused GenericBuffer/RowBuffer/SortingWriter (sort keys on any non-repeated leaf, any direction and null placement) all produce identical bytes; fresh digests equal across three build/CPU variants; every tenth case writes one-value pages with 56..480 pages per chunk (whole strides of the vector kernels over page bounds). Histories and inputs are sampled: exploration.",
          "Map-typed columns and encryption excluded as the statement says. sha256 collisions ignored.",
          "DESIGN.md §4 C17"),
  "C03": ("exploration", "runtime monitoring: pairwise stream equality of 8 ingestion entry points against an independent Dremel shredding model, over PRNG rows with bitmap-boundary null runs",
